@@ -162,8 +162,8 @@ Definition parse_int (s : str) : option Z :=
 (* CNum m e: a numeric literal of value m / 10^e (xsd:integer: e = 0; xsd:decimal: e = number of fraction digits) *)
 Inductive lclass := CStr | CNum (m : Z) (e : N) | CBool (b : bool) | COther.
 
-(* the lexical forms [+-]?digits[.digits] / [+-]?.digits of xsd:decimal with at least one digit (Decimal() accepts more -
-   exponents, underscores, white space, NaN, Infinity: those are outside the fragment); result: coefficient and
+(* the lexical forms [+-]?digits[.digits] / [+-]?.digits of xsd:decimal with at least one digit, optionally followed by an
+   exponent (Decimal() accepts more - underscores, white space, NaN, Infinity: those are outside the fragment); result: coefficient and
    number of fraction digits, compared exactly as Python compares int and Decimal *)
 Fixpoint dec_scan (dot : bool) (acc e nd : N) (s : str) : option (N * N * N) :=
   match s with
@@ -173,13 +173,34 @@ Fixpoint dec_scan (dot : bool) (acc e nd : N) (s : str) : option (N * N * N) :=
       else if N.eqb c 46 && negb dot then dec_scan true acc e nd r
       else None
   end.
+(* the text before an exponent marker e / E, and the text after it *)
+Fixpoint split_exp (s : str) : str * option str :=
+  match s with
+  | [] => ([], None)
+  | c :: r => if N.eqb c 101 || N.eqb c 69 then ([], Some r)
+              else let '(a, b) := split_exp r in (c :: a, b)
+  end.
+(* Decimal() also reads an exponent ([eE][+-]?digits); rdflib holds such an xsd:decimal literal to be well-typed
+   (its checker only asks for a value), so it takes the numeric fast path with the value m * 10^x / 10^e *)
 Definition parse_dec (s : str) : option (Z * N) :=
   let '(neg, body) := match s with
                       | c :: r => if N.eqb c 45 then (true, r) else if N.eqb c 43 then (false, r) else (false, s)
                       | [] => (false, s)
                       end in
-  match dec_scan false 0 0 0 body with
-  | Some (a, e, nd) => if N.eqb nd 0 then None else Some ((if neg then Z.opp (Z.of_N a) else Z.of_N a), e)
+  let '(mant, ex) := split_exp body in
+  match dec_scan false 0 0 0 mant with
+  | Some (a, e, nd) =>
+      if N.eqb nd 0 then None else
+      let m := if neg then Z.opp (Z.of_N a) else Z.of_N a in
+      match ex with
+      | None => Some (m, e)
+      | Some xs =>
+          match parse_int xs with
+          | Some x => let k := (x - Z.of_N e)%Z in
+                      if Z.leb 0 k then Some ((m * 10 ^ k)%Z, 0) else Some (m, Z.to_N (Z.opp k))
+          | None => None
+          end
+      end
   | None => None
   end.
 
@@ -193,6 +214,23 @@ Definition parse_bool (s : str) : option bool :=
   else if str_eqb s [102; 97; 108; 115; 101] || str_eqb s [48] then Some false
   else None.
 
+(* the integer-valued numeric datatypes (reflected: members of _NUMERIC_LITERAL_TYPES converted by int, with the bounds
+   of their well-formedness checker) that are INSIDE the modelled fragment: those whose IRI sorts between xsd:boolean
+   and xsd:string, like xsd:integer and xsd:decimal.  The four xsd:unsigned* types sort after xsd:string, so that
+   3^^unsignedInt < 5^^integer < "a" < 3^^unsignedInt: with them < is not an order on the fragment; they stay
+   outside (law-checked only). *)
+Definition frag_int_types : list (str * (option Z * option Z)) :=
+  filter (fun p => str_ltb xsd_boolean (fst p) && str_ltb (fst p) xsd_string) int_value_types.
+Fixpoint int_type_get (d : str) (tab : list (str * (option Z * option Z))) : option (option Z * option Z) :=
+  match tab with
+  | [] => None
+  | (d', b) :: r => if str_eqb d d' then Some b else int_type_get d r
+  end.
+(* outside the bounds the literal is ill-typed: it does not enter the numeric fast path *)
+Definition in_bounds (z : Z) (b : option Z * option Z) : bool :=
+  (match fst b with Some lo => Z.leb lo z | None => true end)
+  && (match snd b with Some hi => Z.leb z hi | None => true end).
+
 Definition lit_class (lex : str) (dt lang : option str) : lclass :=
   match lang with
   | Some [] => COther      (* private _language == "": not a literal the constructor builds *)
@@ -201,13 +239,16 @@ Definition lit_class (lex : str) (dt lang : option str) : lclass :=
     | None => CStr
     | Some d =>
         if str_eqb d xsd_string then CStr
-        else if str_eqb d xsd_integer then
-          match parse_int lex with Some z => CNum z 0 | None => COther end
-        else if str_eqb d xsd_decimal then
+        else match int_type_get d frag_int_types with
+        | Some b =>
+          match parse_int lex with Some z => if in_bounds z b then CNum z 0 else COther | None => COther end
+        | None =>
+        if str_eqb d xsd_decimal then
           match parse_dec lex with Some (m, e) => CNum m e | None => COther end
         else if str_eqb d xsd_boolean then
           match parse_bool lex with Some b => CBool b | None => COther end
         else COther
+        end
     end
   end.
 
